@@ -200,8 +200,8 @@ func runConform(res *world.Result, s *simrt.Sim, o world.Opts, describe *[]strin
 	hostW.Close()
 	hostR.Close()
 	s.WaitProcess(proc)
-	if proc.Status != 0 {
-		res.Failf("C16/conforming-goodbye", "the conforming plugin exited with status %d after goodbye", proc.Status)
+	if proc.ExitStatus() != 0 {
+		res.Failf("C16/conforming-goodbye", "the conforming plugin exited with status %d after goodbye", proc.ExitStatus())
 	}
 	_ = bytes.Equal
 	res.Count("c16.conforming-plugin-runs", 1)
